@@ -47,6 +47,7 @@ CATALOG = {
             S("s-c11-names", "c11_names", {}, shards=2),
             S("s-c11-strings", "c11_strings", {"n_body": 10}, {"n_body": 14})],
     "C12": [S("s-c12-rule", "c12_rule", {"m": 19}, {"m": 24}, functions=[REGEXES, "str::parse::<u32> (as decimal value <= 4294967295; cross-checked by Kani harness u_parse in the thorough tier)"]),
+            S("s-c12-statement", "c12_in_statement", {}, shards=3, functions=[GRAMMAR, FIND, REGEXES]),
             S("s-c12-token", "c12_token", {"tail": 3}, {"tail": 5, "ks": (1, 2, 3, 5, 9, 10)}, functions=[REGEXES, TOKENS])],
     "C13": [S("s-c13-existing", "c13_existing", {"quick": True}, {"quick": False}, shards=8, functions=[GRAMMAR, FIND]),
             S("s-c13-unusable", "c13_unusable", {"quick": True}, {"quick": False}, shards=4, functions=[GRAMMAR, FIND]),
@@ -60,7 +61,8 @@ CATALOG = {
 
 M_CATALOG = {
     "C04": [{"engine": "M", "name": "m-c04-dispatch", "functions": ["src/main.rs::main (MIR CFG: dispatch on Context.check_mode)"]}],
-    "C18": [{"engine": "M", "name": "m-c18-signals", "functions": ["src/main.rs::main (MIR: arguments of signal_hook::flag::register)"]}],
+    "C18": [{"engine": "M", "name": "m-c18-signals", "functions": ["src/main.rs::main (MIR: arguments of signal_hook::flag::register)"]},
+            {"engine": "M", "name": "m-c18-only-flag-handlers", "functions": ["src/main.rs::main (MIR: every call into signal_hook)"]}],
 }
 
 
@@ -68,12 +70,23 @@ def obligations(prop, tier):
     return [dict(o, kw=o[tier], tier=tier) for o in CATALOG.get(prop, [])] + [dict(o) for o in M_CATALOG.get(prop, [])]
 
 
+import threading
+_M_LOCK = threading.Lock()
+_M_CACHE = {}
+
+
 def run_m(ob):
     import mengine
-    try:
-        r = mengine.analyse()
-    except Exception as e:  # noqa
-        return {"results": [], "errors": ["MIR engine: %s" % e], "validation": None, "wall_s": 0}
+    # one MIR analysis per process, never concurrently (z3's default context is not thread-safe)
+    with _M_LOCK:
+        if "r" not in _M_CACHE:
+            try:
+                _M_CACHE["r"] = mengine.analyse()
+            except Exception as e:  # noqa
+                _M_CACHE["r"] = {"results": [], "errors": ["%s: MIR engine: %s" % (ob["name"], e)], "wall_s": 0}
+        r = _M_CACHE["r"]
+    if not r["results"] and r["errors"]:
+        return {"results": [], "errors": r["errors"], "validation": None, "wall_s": 0}
     res = [x for x in r["results"] if x["name"] == ob["name"]]
     errs = [e for e in r["errors"] if e.startswith(ob["name"])]
     return {"results": res, "errors": errs, "validation": None, "wall_s": r["wall_s"]}
